@@ -41,7 +41,9 @@ Exists(p) == p \in Files \/ p \in Dirs \/ (p # <<>> /\ p[Len(p)] = "/" /\ SubSeq
 
 \* ---- configurations and requests ----------------------------------------------
 RulePaths == { <<"/">>, <<"/","a">> }
-Exts      == { Php, PHP }
+\* the rule's ext as written: with the dot in either letter case, without the dot (a plain suffix),
+\* or absent (the catch-all rule: every existing file under the path is a script)
+Exts      == { Php, PHP, <<"p","h","p">>, <<>> }
 IndexName == <<"i","n","d","e","x">> \o Php
 
 Prefixes == { <<"/">>, <<"/","a","/">>, <<"/","A","/">>, <<"/","a","b","/">>, <<"/","b","/">> }
